@@ -1,14 +1,20 @@
 (* C17 model, part 2: cli/inputs.go — which bytes of the input are handed to jsonParseError as
    [contents], with which base line and rebased offset.  Definitions only.
 
-   Non-seekable input (inputReader with io.TeeReader into buf; jsonInputIter.Next):
-     every byte the decoder reads is appended to buf; after each successfully decoded value
-       if buf.Len() >= 16*1024 { i.offset += buf.Len(); i.line += count(buf, '\n'); buf.Reset() }
+   Non-seekable input (inputReader with io.TeeReader into buf; jsonInputIter.Next), CURRENT code:
+     every byte the decoder reads is appended to buf; after each successfully delivered value
+       if buf.Len() >= 16*1024 {
+         n := int(i.pos() - i.offset)                       // i.pos = dec.InputOffset: consumed bytes
+         i.line += bytes.Count(buf.Next(n), []byte{'\n'})    // drop what was consumed, keep the read-ahead
+         i.offset += int64(n)
+       }
      on a *json.SyntaxError:  e.Offset -= i.offset; contents = buf.String(); line base = i.line
      on io.ErrUnexpectedEOF:  contents = buf.String(); Error() uses len(contents)+1.
-   The decoder's read-ahead is NOT modelled: the number of bytes it had read when a value was
-   delivered is a parameter (the list [rs], any values the harness observed / any values at all in
-   the theorems), see Run.v and props/C17.v.
+   The decoder is NOT modelled: for every delivered value the number of bytes it had read (r) and its
+   position (p = InputOffset) are parameters — observed by the harness in the correspondence, universally
+   quantified (any read-ahead r >= p) in the theorems.
+   [old_pipe_step] is the arithmetic before commit e216f69 (i.offset += buf.Len(); buf.Reset()), kept for
+   the regression example D7.
 
    Seekable input (getContents with offset/line pointers): the re-reading loop
        for *offset > bufSize*3/4 { n = copy(min(bufSize, *offset-bufSize/4)); *offset -= n;
@@ -22,28 +28,42 @@ Open Scope Z_scope.
 Definition bufSize : Z := 16384.
 
 (* ---- non-seekable ----------------------------------------------------------------------------- *)
-Record pstate := { p_rest : list N;   (* the input from buf[0] on *)
-                   p_start : Z;       (* i.offset = absolute index of buf[0] *)
+Record pstate := { p_rest : list N;   (* the input from buf's read position on *)
+                   p_start : Z;       (* i.offset = absolute index of the first byte of buf *)
                    p_line : Z }.      (* i.line *)
 
-(* after a delivered value, the decoder having read r bytes in total: buf.Len() = r - i.offset *)
-Definition pipe_step (st : pstate) (r : Z) : pstate :=
+(* after a delivered value: the decoder has read r bytes in total (buf.Len() = r - i.offset) and
+   consumed p of them (dec.InputOffset) *)
+Definition pipe_step (st : pstate) (rp : Z * Z) : pstate :=
+  let '(r, p) := rp in
+  if bufSize <=? r - p_start st then
+    let n := p - p_start st in
+    {| p_rest := zdrop n (p_rest st); p_start := p_start st + n;
+       p_line := p_line st + count_lf (ztake n (p_rest st)) |}
+  else st.
+
+Definition pipe_run (c : list N) (steps : list (Z * Z)) : pstate :=
+  fold_left pipe_step steps {| p_rest := c; p_start := 0; p_line := 0 |}.
+
+(* e = Some E: SyntaxError with (absolute) offset E as reported by encoding/json; None: ErrUnexpectedEOF.
+   rerr = bytes read when the error was reported. *)
+Definition pipe_report (c : list N) (steps : list (Z * Z)) (rerr : Z) (e : option Z) : list N * Z * json_err :=
+  let st := pipe_run c steps in
+  let contents := ztake (rerr - p_start st) (p_rest st) in
+  (contents, p_line st, match e with Some E => JSyntax (E - p_start st) | None => JUnexpectedEOF end).
+
+(* the arithmetic before the repair: the whole buffer, read-ahead included, was dropped *)
+Definition old_pipe_step (st : pstate) (rp : Z * Z) : pstate :=
+  let '(r, _) := rp in
   let n := r - p_start st in
   if bufSize <=? n then
     {| p_rest := zdrop n (p_rest st); p_start := p_start st + n;
        p_line := p_line st + count_lf (ztake n (p_rest st)) |}
   else st.
-
-Definition pipe_run (c : list N) (rs : list Z) : pstate :=
-  fold_left pipe_step rs {| p_rest := c; p_start := 0; p_line := 0 |}.
-
-(* chunks = rs ++ [rerr]; e = Some E (SyntaxError, absolute 1-based offset) | None (ErrUnexpectedEOF) *)
-Definition pipe_report (c : list N) (chunks : list Z) (e : option Z) : list N * Z * json_err :=
-  let rs := removelast chunks in
-  let rerr := last chunks 0 in
-  let st := pipe_run c rs in
-  let contents := ztake (rerr - p_start st) (p_rest st) in
-  (contents, p_line st, match e with Some E => JSyntax (E - p_start st) | None => JUnexpectedEOF end).
+Definition old_pipe_report (c : list N) (steps : list (Z * Z)) (rerr : Z) (e : option Z) : list N * Z * json_err :=
+  let st := fold_left old_pipe_step steps {| p_rest := c; p_start := 0; p_line := 0 |} in
+  (ztake (rerr - p_start st) (p_rest st), p_line st,
+   match e with Some E => JSyntax (E - p_start st) | None => JUnexpectedEOF end).
 
 (* ---- seekable ----------------------------------------------------------------------------------- *)
 Fixpoint seek_loop (fuel : nat) (rest : list N) (offset line : Z) : list N * Z * Z :=
@@ -59,7 +79,7 @@ Fixpoint seek_loop (fuel : nat) (rest : list N) (offset line : Z) : list N * Z *
       else (rest, offset, line)
   end.
 
-(* e = Some E: *offset = e.Offset (i.offset is 0: buf == nil, no resets); None: pos = file size *)
+(* e = Some E: *offset = e.Offset (i.offset is 0: buf == nil, no trimming); None: pos = file size *)
 Definition seek_report (c : list N) (e : option Z) : list N * Z * json_err :=
   let off0 := match e with Some E => E | None => zlen c end in
   let '(rest, off, line) := seek_loop (S (List.length c)) c off0 0 in
@@ -84,26 +104,22 @@ Fixpoint count_lone_cr (c : list N) (n : nat) : Z :=
       (if (b =? 13)%N then match r with 10%N :: _ => 0 | _ => 1 end else 0) + count_lone_cr r n'
   end.
 
-Definition pipe_discarded (c : list N) (chunks : list Z) : Z := p_start (pipe_run c (removelast chunks)).
+Definition pipe_discarded (c : list N) (steps : list (Z * Z)) : Z := p_start (pipe_run c steps).
 Definition seek_discarded (c : list N) (e : option Z) : Z :=
   let off0 := match e with Some E => E | None => zlen c end in
   let '(_, off, _) := seek_loop (S (List.length c)) c off0 0 in off0 - off.
 
-(* ---- the read-ahead of the decoder, universally quantified ------------------------------------------
-   ends = ends of the valid documents preceding the faulty one (increasing byte counts);
-   rs   = bytes the decoder had read when it delivered each of them: at least the document (r_i >= e_i),
-          otherwise ARBITRARY (monotone, within the input);
-   rerr = bytes read when it reported the error at 1-based offset E (the offending byte was read). *)
-Fixpoint increasing (lo : Z) (l : list Z) : bool :=
-  match l with [] => true | x :: r => (lo <=? x) && increasing x r end.
-Fixpoint all_le (a b : list Z) : bool :=
-  match a, b with
-  | [], [] => true
-  | x :: a', y :: b' => (x <=? y) && all_le a' b'
-  | _, _ => false
+(* ---- the decoder's behaviour, universally quantified ------------------------------------------------
+   steps = (r_i, p_i) for the values delivered before the error: p_i = bytes consumed (nondecreasing,
+           all before the offending byte: p_i < E), r_i = bytes read, at least p_i, otherwise ARBITRARY
+           (nondecreasing, within the input);
+   rerr  = bytes read when the error at 1-based offset E was reported (the offending byte was read). *)
+Fixpoint steps_okb (lo_r lo_p E : Z) (l : list (Z * Z)) : bool :=
+  match l with
+  | [] => true
+  | (r, p) :: t => (lo_r <=? r) && (lo_p <=? p) && (p <=? r) && (p <? E) && steps_okb r p E t
   end.
-Definition chunking_okb (c : list N) (ends rs : list Z) (rerr E : Z) : bool :=
-  increasing 1 ends && increasing 0 rs && all_le ends rs
-  && (last ends 0 <? E) && (last rs 0 <=? rerr) && (E <=? rerr) && (rerr <=? zlen c) && (1 <=? E).
-Definition chunking_ok (c : list N) (ends rs : list Z) (rerr E : Z) : Prop :=
-  chunking_okb c ends rs rerr E = true.
+Definition chunking_okb (c : list N) (steps : list (Z * Z)) (rerr E : Z) : bool :=
+  steps_okb 0 0 E steps && (fst (last steps (0, 0)) <=? rerr) && (E <=? rerr) && (rerr <=? zlen c) && (1 <=? E).
+Definition chunking_ok (c : list N) (steps : list (Z * Z)) (rerr E : Z) : Prop :=
+  chunking_okb c steps rerr E = true.
